@@ -334,7 +334,10 @@ class CircuitDAG(CircuitBase):
         """
         remaining_nodes = set(self.dag.nodes)
         for label in labels:
-            remaining_nodes = remaining_nodes.intersection(set(self.node_dict[label]))
+            # a label that no node carries has no entry in node_dict: then no node satisfies all labels
+            remaining_nodes = remaining_nodes.intersection(
+                set(self.node_dict.get(label, []))
+            )
         return list(remaining_nodes)
 
     def get_node_exclude_labels(self, labels):
